@@ -68,6 +68,7 @@ def nodeEqns (jt : JetTypes) (i : Nat) (nd : Node) (f : Nat) : Option (List Eqn 
   | .fail _ => some ([], f)
   | .word n _ => some ([(src i, .one), (tgt i, tmOfTy (wordTy n))], f)
   | .jet name => (jt name).map fun (s, t) => ([(src i, tmOfTy s), (tgt i, tmOfTy t)], f)
+  | .hidden _ => some ([], f)
 
 /-- all equations of a plan (node order), plus `root : 1 → 1` for programs -/
 def constraints (jt : JetTypes) (p : Plan) (program : Bool) : Option (List Eqn) :=
